@@ -24,3 +24,13 @@ Definition c16_spec (c : c16case) : bool :=
 (** once / onmatch: which lines print *)
 Record c16q := mkC16Q { u_q : pq; u_matches : list bool; u_printed_on : list bool }.
 Definition c16q_agree (c : c16q) : bool := list_beq Bool.eqb (print_run (u_q c) false (u_matches c)) (u_printed_on c).
+
+(** the character classes of the print grammar's terminals, read from the grammar text of the tree under test and
+    evaluated by Python's re on [g_codes], against the model's predicates *)
+Record c16cls := mkCls16 { g_codes : list Z; g_text : list bool; g_root : list bool; g_simple : list bool; g_quoted : list bool }.
+Definition c16_classes_agree (k : c16cls) : bool :=
+  let eqb := list_beq Bool.eqb in
+  eqb (map (fun c => negb ((c =? DOLLAR) || is_ws c)) (g_codes k)) (g_text k) &&
+  eqb (map (fun c => negb ((c =? DOT) || (c =? DOLLAR))) (g_codes k)) (g_root k) &&
+  eqb (map name_char (g_codes k)) (g_simple k) &&
+  eqb (map (fun c => negb (c =? 39)) (g_codes k)) (g_quoted k).
